@@ -2,8 +2,8 @@
 variant, size per tier), which exhaustive small-format models are checked, and the evidence
 wording.  n = (quick, thorough) generator size per slice; slices = (quick, thorough)."""
 
-def T(family, n, slices, variant="std"):
-    return {"family": family, "variant": variant, "n": n, "slices": slices}
+def T(family, n, slices, variant="std", env=None):
+    return {"family": family, "variant": variant, "n": n, "slices": slices, "env": env or {}}
 
 RULE_TRACE = ("seeded generators (directed operand classes: ties, powers of two, cancellation at every depth, "
               "subnormal low words, far-apart exponents; plus random) drive the real crate; every call is one "
@@ -30,6 +30,12 @@ W_EXPFLOW = "the exp reduction x = y/2 + z with the real double-double operation
 W_QUAD = "quadrant(): quotient round(x / (pi/2)) is an integer, `quotient % 4.0` -> i8 never reaches the NAN arm and equals q mod 4, for every valid x of the window (both signs)"
 W_ATAN = "atan's interval dispatch k = 4|x| + 1/4 computed in double-double arithmetic selects exactly the interval of the exact |x| (breakpoints 7/16, 11/16, 19/16, 39/16) for every valid x of the window"
 W_POWF = "powf's integrality test and parity selection for a negative base (parity from the low word when it has an integer part) equals the parity of the exact exponent for every valid y of the window"
+W_EXP2SCALE = "exp2's final scaling: mul_pow2 (transcribed, thresholds of the format) applied to both words of EVERY normalised pair in [1/2, 2) for EVERY k the reduction can produce (least subnormal exponent .. EMAX), followed by the renormalising Fast2Sum: result normalised, within one subnormal quantum of r1 * 2^k, exact whenever both scaled words are representable (so exp2(k) = 2^k)"
+W_EXP2FLOW = "exp2's range switch and reduction x = k + t (k = round(x.hi)) for EVERY valid x of the window: k stays inside the single-step range of mul_pow2, the reduction is exact, |t| <= 1/2 + |x.lo|"
+W_SQRT = "sqrt (reciprocal square root, one multiplication, one double-word correction, 2Sum) transcribed, on EVERY valid positive x of three binades (even and odd exponents): normalised, within 32 * 2^-2P relative (the constant stated at binary64), negative argument invalid"
+W_CBRT = "cbrt's two Newton steps in double-double arithmetic from EVERY seed word within one ulp of the true cube root of the high word (libm::cbrt is only faithful, so the seed is a nondeterministic choice of the model), on every valid x of three binades (all exponent residues mod 3), both signs: normalised, same sign, within 16 * 2^-2P relative"
+W_POWI = "powi's square-and-multiply loop (with the *= copies of Alg. 12) for n = 2..12 and both signs of EVERY valid x of a binade: normalised, within (6n + 16) 2^-2P of the exact x^n, and the reciprocal used for negative exponents within the same bound"
+W_ASIN = "asin's domain test and branch selection (|x| > 1 -> NAN, |x| <= 1/2 direct, else complementary) equals the selection on the exact value, and the complementary argument sqrt((1 - |x|)/2) computed with the real double-double operations is valid, inside [0, 1/2] and within 80 * 2^-2P of the intended value, for every valid x of the window (both signs)"
 W_CMP = "lexicographic comparison of normalised pairs == comparison of exact values, abs, on all valid pairs of a window"
 
 PLAN = {
@@ -96,11 +102,13 @@ PLAN = {
     },
     "C01": {
         "level": "model_checking",
-        "rule": RULE_TRACE + "; prog = random programs of 50-200 calls over 8 registers with results fed back (the Normalised invariant is evaluated after every call)",
+        "rule": RULE_TRACE + "; prog = random programs of 50-200 calls over 8 registers with results fed back (the Normalised invariant is evaluated after every call); prog_elem = programs of 20-50 calls mixing arithmetic with every mathematical function, results fed back, with a directed block steering results one binade at a time through 2^-1074..2^-1000 and 2^990..2^1023 (validated with C01_ONLY=1: normalisation clause and determinism memo, the accuracy contracts are the business of C13-C18)",
         "models": [MCW("MC_Machine_P3.cfg", W_MACHINE), MCW("MC_Machine_P4.cfg", W_MACHINE, "thorough"),
-                   MC("MC_P3_wide.cfg", W_WIDE), MC("MC_P3_frac.cfg", W_FRAC), MC("MC_P3_new.cfg", W_NEW), MC("MC_P3_addsub.cfg", W_ADD, "thorough"), MC("MC_P3_div.cfg", W_DIV, "thorough")],
+                   MC("MC_P3_wide.cfg", W_WIDE), MC("MC_P3_frac.cfg", W_FRAC), MC("MC_P3_new.cfg", W_NEW), MC("MC_P4_exp2scale.cfg", W_EXP2SCALE, slices=8),
+                   MC("MC_P3_addsub.cfg", W_ADD, "thorough"), MC("MC_P3_div.cfg", W_DIV, "thorough"), MC("MC_P5_exp2scale.cfg", W_EXP2SCALE, "thorough")],
         "traces": [T("prog", (12, 1500), (8, 14)), T("arith_all", (100, 2000), (2, 6)), T("arith_new", (120, 2000), (4, 8)), T("conv", (300, 6000), (2, 6)), T("frac", (200, 4000), (2, 4)),
-                   T("grid07", (64, 16), (4, 16))],
+                   T("grid07", (64, 16), (4, 16)),
+                   T("prog_elem", (150, 5000), (8, 14), env={"C01_ONLY": "1"})],
     },
     "C11": {
         "level": "exploration",
@@ -124,12 +132,15 @@ PLAN = {
     "C13": {
         "level": "exploration",
         "rule": RULE_TRACE + "; sqrt/cbrt/hypot are decided by exact dyadic inequalities on r^2, r^3; powi against a ball enclosure of x^|n| by binary powering",
+        "models": [MC("MC_P4_sqrt.cfg", W_SQRT, slices=8), MC("MC_P3_powi.cfg", W_POWI, slices=8), MC("MC_P3_cbrt.cfg", W_CBRT, slices=8), MC("MC_P4_cbrt.cfg", W_CBRT, "thorough"), MC("MC_P5_cbrt.cfg", W_CBRT, "thorough"), MC("MC_P4_powi.cfg", W_POWI, "thorough"),
+                   MC("MC_P5_sqrt.cfg", W_SQRT, "thorough"), MC("MC_P5_powi.cfg", W_POWI, "thorough")],
         "traces": [T("roots", (200, 4000), (8, 14)), T("powi", (120, 2500), (6, 14))],
     },
     "C14": {
         "level": "exploration",
         "rule": RULE_TRACE + "; exp/exp2/exp_m1/powf against rigorous ball enclosures (Taylor series with explicit remainder, argument reduction with an enclosure of ln 2) computed in TLA+; stratified over every entry of the exp(n/128)-1, exp(1/2)^n, exp(16)^n tables and both sides of each range switch",
-        "models": [MC("MC_P4_expflow.cfg", W_EXPFLOW), MC("MC_P4_powfflow.cfg", W_POWF), MC("MC_P5_expflow.cfg", W_EXPFLOW, "thorough"), MC("MC_P5_powfflow.cfg", W_POWF, "thorough")],
+        "models": [MC("MC_P4_expflow.cfg", W_EXPFLOW), MC("MC_P4_powfflow.cfg", W_POWF), MC("MC_P4_exp2scale.cfg", W_EXP2SCALE, slices=8), MC("MC_P4_exp2flow.cfg", W_EXP2FLOW, slices=8),
+                   MC("MC_P5_expflow.cfg", W_EXPFLOW, "thorough"), MC("MC_P5_powfflow.cfg", W_POWF, "thorough"), MC("MC_P5_exp2scale.cfg", W_EXP2SCALE, "thorough"), MC("MC_P5_exp2flow.cfg", W_EXP2FLOW, "thorough")],
         "traces": [T("exps", (250, 5000), (14, 14))],
     },
     "C15": {
@@ -146,7 +157,7 @@ PLAN = {
     "C17": {
         "level": "exploration",
         "rule": RULE_TRACE + "; inverse functions are checked by monotone inversion through enclosures of sin/cos at r +- tolerance, with the branch/axis conventions as exact clauses",
-        "models": [MC("MC_P4_atanflow.cfg", W_ATAN), MC("MC_P5_atanflow.cfg", W_ATAN, "thorough")],
+        "models": [MC("MC_P4_atanflow.cfg", W_ATAN), MC("MC_P4_asinflow.cfg", W_ASIN, slices=8), MC("MC_P5_atanflow.cfg", W_ATAN, "thorough"), MC("MC_P5_asinflow.cfg", W_ASIN, "thorough")],
         "traces": [T("atrig", (160, 3000), (14, 14))],
     },
     "C18": {
